@@ -106,6 +106,12 @@ def run(chk, orch):
                 ([{"spec": T}], [dict(R(0, "A"), during={"op": "edit_gtf", "wl": 0, "nth_commit": 3}), R(0, "B"), R(0, "A")]),
                 ([{"spec": T}], [dict(R(0, "A", gtf_repr="gz"), during={"op": "edit_gtf", "wl": 0, "nth_commit": 9}), R(0, "A", gtf_repr="gz")]),
             ]
+            # a run that was handed the cached conversion in ANOTHER run's folder is killed; that folder is then re-used for another
+            # annotation of the same file name; the killed run is resumed: it must not go on with the replaced database
+            for kk in (12, 18):
+                templates.append(([{"spec": T, "same_basename_dir": True}, {"spec": T2, "same_basename_dir": True}],
+                                  [R(0, "A"), dict(R(0, "B"), fault={"kind": "kill_actor", "index": kk, "phase": "after"}), R(1, "A"),
+                                   R(0, "B", resume=True)]))
             for ti, (wl_, st_) in enumerate(templates):
                 a = {"workloads": wl_, "steps": st_}
                 orch.submit(0, "scenarios:cache_session", a, tag=("h", 1000 + ti), timeout=180)
@@ -246,6 +252,9 @@ def run(chk, orch):
                 if st.get("during") and sr.get("during_fired"):
                     chk.faults["annotation_replaced_during_conversion"] += 1
                     continue        # may legitimately work with the old or the new content
+                if ar["exit"] == "killed":
+                    chk.faults["run_killed_after_it_adopted_a_cached_conversion"] += 1
+                    continue        # the injected fault; the resumed run (a later step) is judged
                 prefix_ops = [("run" if "run" in x else x["op"]) for x in a["steps"][:si]]
                 attrs = {"repr": o.get("gtf_repr", "gtf"), "complete": bool(o.get("complete_genedb")),
                          "after": ",".join(prefix_ops[-3:])}
